@@ -1,8 +1,8 @@
 //@ kani numeric
 //@ append src/find/matchers/mod.rs
 //@ module verif_kani_numeric
-//@ harness k_comparable_matches kind=complete props=C14 label=<<ComparableValue::matches: +N strictly greater, -N strictly less, N equal, for every u64 limit and every u64 measured value>>
-//@ harness k_comparable_imatches kind=complete props=C14,C15 label=<<ComparableValue::imatches on every i64 measured value agrees with the mathematical comparison against every u64 limit (negative values are less than every limit)>>
+//@ harness k_comparable_matches kind=complete props=C14 covers=numeric::ComparableValue::matches label=<<ComparableValue::matches: +N strictly greater, -N strictly less, N equal, for every u64 limit and every u64 measured value>>
+//@ harness k_comparable_imatches kind=complete props=C14,C15 covers=numeric::ComparableValue::imatches label=<<ComparableValue::imatches on every i64 measured value agrees with the mathematical comparison against every u64 limit (negative values are less than every limit)>>
 // Loop-free, full-domain harnesses on the real ComparableValue: a complete CBMC proof of the comparison semantics.
 #[cfg(any(kani, verif_replay))]
 mod verif_kani_numeric {
